@@ -22,6 +22,13 @@ def regenerate(res):
         res.broken.append("translator T4 (dtype2gallina) rejects get_hdf5_data_type: %s" % e)
         return
     common.write_if_changed(os.path.join(common.COQ, "Gen", "DtypeTable.v"), text)
+    import fill2gallina
+    try:
+        text = fill2gallina.translate(common.REPO)
+    except c2gallina.Unsupported as e:
+        res.broken.append("translator T5 (fill2gallina) cannot execute digital_rf_set_fill_value: %s" % e)
+        return
+    common.write_if_changed(os.path.join(common.COQ, "Gen", "FillTable.v"), text)
 
 
 def stored_type(path, cx):
@@ -36,7 +43,9 @@ def stored_type(path, cx):
             k = "f"
         else:
             k = "i" if t.get_sign() == h5py.h5t.SGN_2 else "u"
-        return [k, t.get_size(), int(t.get_order() == h5py.h5t.ORDER_BE)]
+        ds = h["rf_data"]
+        fill = list(np.asarray(ds.fillvalue, dtype=ds.dtype).tobytes())
+        return [k, t.get_size(), int(t.get_order() == h5py.h5t.ORDER_BE)], fill
 
 
 def layouts(cfg):
@@ -142,6 +151,14 @@ def run(res):
     # the regenerated element-type table (Gen/DtypeTable.v) and the hand-written description of what the
     # Python front end passes (Model/Dtype.v) against what the real writer passed and HDF5 stored
     keys = sorted(dtype_seen)
+    import sys
+    sys.path.insert(0, os.path.join(common.VERIF, "translate"))
+    import c2gallina
+    import fill2gallina
+    try:
+        fill_fn = c2gallina.clang_ast(os.path.join(common.REPO, "c/lib/rf_write_hdf5.c"), "digital_rf_set_fill_value", common.REPO)
+    except c2gallina.Unsupported:
+        fill_fn = None
     kc = {"i": "KI", "u": "KU", "f": "KF"}
     terms = []
     for (kind, size, order, cx) in keys:
@@ -151,8 +168,19 @@ def run(res):
                      "(if be then 1 else 0)] | None => [0] end | None => [-1] end)" % d)
     outs = common.run_model_vm("From DRF Require Import Model.FillValue Model.Dtype Gen.DtypeTable.", terms)
     for key, out in zip(keys, outs):
-        st, passed, hist = dtype_seen[key]
+        (st, fill), passed, hist = dtype_seen[key]
         res.count("dtype_table_rows_compared")
+        # T5: the regenerated fill table row of the cell HDF5 actually stores, against the fill bytes in the file
+        if fill_fn is not None:
+            try:
+                ret, calls = fill2gallina.run_cell(fill_fn, {"i": "KI", "u": "KU", "f": "KF"}[st[0]], st[1], bool(st[2]), key[3])
+            except c2gallina.Unsupported as e:
+                ret, calls = "translator T5 cannot execute the function: %s" % e, []
+            res.count("fill_table_rows_compared")
+            if ret != 0 or len(calls) != 1 or calls[0][1] != fill:
+                res.disagree("fill table (digital_rf_set_fill_value executed by translator T5) vs the fill value stored in a real file",
+                             dict(hist, dtype=list(key)), [ret, calls], fill)
+                break
         impl = passed + [1, ord(st[0]), st[1], st[2]]
         if key[1] == 1:
             out, impl = out[:6], impl[:6]        # one-byte types: the byte order of the stored type is immaterial
@@ -182,7 +210,10 @@ def run(res):
                               hist, [(f["ms"], f["rows"]) for f in f2], [(f["ms"], f["rows"]) for f in files])
 
     wl.run_histories(res, 60 if res.tier == "quick" else 1500, oracle, modes=["cont", "cont+comp", "cont+cksum", "cont"])
-    res.trusted += ["translate/dtype2gallina.py (T4): if/else-chain of get_hdf5_data_type from clang's JSON AST, fail-closed; "
+    res.trusted += ["translate/fill2gallina.py (T5): an interpreter of the clang AST of digital_rf_set_fill_value, run once per cell with the "
+                    "HDF5 type queries stubbed and a little-endian host; NAN = canonical quiet NaN bits; the resulting bytes are "
+                    "compared with the fill read back from real files for every cell",
+                    "translate/dtype2gallina.py (T4): if/else-chain of get_hdf5_data_type from clang's JSON AST, fail-closed; "
                     "Model/Dtype.v h5_predef is HDF5's meaning of its predefined types (compared with h5py on every run)"]
     res.assumptions += ["HDF5 applies the fill value it was given to every unwritten element of a contiguous dataset",
                         "Model/FillValue.v is a hand model of digital_rf_set_fill_value on a little-endian host, tied by the complete cell enumeration above"]
